@@ -53,7 +53,7 @@ var integer64 = []*instructionType{
 		immediate:    immTypeI,
 		// FIXME: Find a way how to represent those jump targets.
 		effects: func(i instruction) []expr.Effect {
-			target := regImmOp(binOpFunc(expr.Add), immTypeI, i, width64)
+			target := jalrTarget(i, width64)
 			// Address of following instruction.
 			following := expr.ConstFromUint(uint64(i.addr) + 4)
 			return []expr.Effect{
